@@ -227,7 +227,12 @@ class NotAffine(Exception):
 class AffEval:
     """fold integer expressions of one function into :class:`Aff`."""
 
-    def __init__(self, fi: FuncInfo, folder: Folder, buffers: set[str], nattr: str, stop: set[str] = frozenset()):
+    def __init__(self, fi: FuncInfo, folder: Folder, buffers: set[str], nattr: str, stop: set[str] = frozenset(),
+                 init: tuple[FuncInfo, str] | None = None, n_names: set[str] = frozenset()):
+        self.init = init  # (__init__ of the decoder, its boundary parameter): attributes computed once there are read through
+        self.n_names = set(n_names)  # parameters that hold the boundary
+        self._init_ev: AffEval | None = None
+        self.rewrite: t.Callable[[ast.AST], ast.AST | None] | None = None  # optional: reads a call through the helper it runs
         self.fi = fi
         self.folder = folder
         self.cfg = cfg_of(fi)
@@ -273,16 +278,46 @@ class AffEval:
                 return None
         return None
 
+    # -- attributes computed once in __init__ ------------------------------------------------------
+    def init_value(self, attr: str) -> tuple["AffEval", ast.AST, Node] | None:
+        """``self.<attr>`` assigned exactly once in the class, in __init__ -> (evaluator of __init__, value, node)"""
+        if self.init is None or self.fi.cls is None or attr == self.nattr:
+            return None
+        init, param = self.init
+        stores = [(f, n) for f in self.fi.cls.methods.values() for n in walk_no_nested(f.node)
+                  if is_self_attr(n, attr) and isinstance(n.ctx, (ast.Store, ast.Del))]  # type: ignore[attr-defined]
+        if len(stores) != 1 or stores[0][0] is not init:
+            return None
+        st = getattr(stores[0][1], "_parent", None)
+        if not (isinstance(st, ast.Assign) and len(st.targets) == 1) and not (isinstance(st, ast.AnnAssign) and st.value is not None):
+            return None
+        if self._init_ev is None:
+            self._init_ev = self if self.fi is init else AffEval(init, self.folder, set(), self.nattr, n_names={param})
+        node = self._init_ev.cfg.node_of(st)
+        return (self._init_ev, st.value, node) if node is not None else None  # type: ignore[union-attr]
+
+    def _is_boundary_param(self, e: ast.AST, node: Node) -> bool:
+        if isinstance(e, ast.Name) and e.id in self.n_names:
+            defs = self.rd.reaching(node, e.id)
+            return bool(defs) and all(d.kind == "param" for d in defs)
+        return False
+
     # -- bytes lengths -----------------------------------------------------
     def lenb(self, e: ast.AST, node: Node) -> Aff:
         if isinstance(e, ast.Constant) and isinstance(e.value, bytes):
             return Aff(const=len(e.value))
         if isinstance(e, ast.BinOp) and isinstance(e.op, ast.Add):
             return self.lenb(e.left, node) + self.lenb(e.right, node)
-        if is_self_attr(e, self.nattr):
+        if is_self_attr(e, self.nattr) or self._is_boundary_param(e, node):
             return Aff({"n": 1})
         if norm(e) in self.buffers:
             return Aff({"D": 1})
+        if is_self_attr(e):
+            iv = self.init_value(e.attr)  # type: ignore[attr-defined]
+            if iv is not None:
+                a = iv[0].lenb(iv[1], iv[2])
+                if a.only({"n"}):
+                    return a
         if isinstance(e, ast.Name):
             d = self.single_def(e.id, node)
             if d is not None:
@@ -300,8 +335,12 @@ class AffEval:
             return e.value
         if isinstance(e, ast.BinOp) and isinstance(e.op, ast.Add):
             return self.bytes_val(e.left, node, boundary) + self.bytes_val(e.right, node, boundary)
-        if is_self_attr(e, self.nattr):
+        if is_self_attr(e, self.nattr) or self._is_boundary_param(e, node):
             return boundary
+        if is_self_attr(e):
+            iv = self.init_value(e.attr)  # type: ignore[attr-defined]
+            if iv is not None:
+                return iv[0].bytes_val(iv[1], iv[2], boundary)
         if isinstance(e, ast.Name):
             d = self.single_def(e.id, node)
             if d is not None:
@@ -346,6 +385,19 @@ class AffEval:
             if e.id in self.fi_locals():
                 return Aff({f"name:{e.id}": 1})
             raise NotAffine(f"name `{e.id}`")
+        if is_self_attr(e):
+            iv = self.init_value(e.attr)  # type: ignore[attr-defined]
+            if iv is not None:
+                try:
+                    a = iv[0].aff(iv[1], iv[2])
+                    if a.only({"n"}):
+                        return a
+                except NotAffine:
+                    pass
+        if isinstance(e, ast.Call) and self.rewrite is not None:
+            e2 = self.rewrite(e)
+            if e2 is not None and norm(e2) != norm(e):
+                return self.aff(e2, node)
         if isinstance(e, (ast.Call, ast.Attribute, ast.Subscript)):
             key = "op:" + norm(e)
             self.opaque[key] = e
@@ -357,7 +409,8 @@ def bind_args(fi: FuncInfo, call: ast.Call) -> dict[str, ast.AST] | None:
     """parameter name -> argument expression for a ``self.<method>(...)`` call (None when not a plain binding)."""
     a = fi.node.args  # type: ignore[attr-defined]
     pos = [x.arg for x in a.posonlyargs + a.args]
-    if pos and pos[0] == "self":
+    decs = {(dotted(d.func if isinstance(d, ast.Call) else d) or "").rsplit(".", 1)[-1] for d in fi.node.decorator_list}  # type: ignore[attr-defined]
+    if pos and "staticmethod" not in decs and (pos[0] == "self" or (pos[0] == "cls" and "classmethod" in decs)):
         pos = pos[1:]
     if any(isinstance(x, ast.Starred) for x in call.args) or any(k.arg is None for k in call.keywords) or len(call.args) > len(pos):
         return None
@@ -378,12 +431,24 @@ def bind_args(fi: FuncInfo, call: ast.Call) -> dict[str, ast.AST] | None:
 
 def strip_max0(e: ast.AST) -> ast.AST:
     """``max(0, x)`` / ``max(x, 0)`` -> x  (a negative search position is clamped to 0 by ``re`` as well)."""
+    def zero(x: ast.AST) -> bool:
+        return isinstance(x, ast.Constant) and x.value == 0 and not isinstance(x.value, bool)
+
     if isinstance(e, ast.Call) and isinstance(e.func, ast.Name) and e.func.id == "max" and len(e.args) == 2 and not e.keywords:
         a, b = e.args
-        if isinstance(a, ast.Constant) and a.value == 0:
+        if zero(a):
             return b
-        if isinstance(b, ast.Constant) and b.value == 0:
+        if zero(b):
             return a
+    # the same clamp written as a conditional expression: `x if x > 0 else 0`, `0 if x < 0 else x`, `x if 0 <= x else 0`, ...
+    if isinstance(e, ast.IfExp) and isinstance(e.test, ast.Compare) and len(e.test.ops) == 1:
+        l, op, r = e.test.left, type(e.test.ops[0]), e.test.comparators[0]
+        if zero(l):
+            l, r, op = r, l, {ast.Gt: ast.Lt, ast.Lt: ast.Gt, ast.GtE: ast.LtE, ast.LtE: ast.GtE}.get(op, op)
+        if zero(r) and op in (ast.Gt, ast.GtE, ast.Lt, ast.LtE):
+            pos_arm, neg_arm = (e.body, e.orelse) if op in (ast.Gt, ast.GtE) else (e.orelse, e.body)
+            if zero(neg_arm) and norm(pos_arm) == norm(l):
+                return pos_arm
     return e
 
 
@@ -425,15 +490,117 @@ def self_call_closure(repo, cls: ClassInfo, entry: FuncInfo) -> list[FuncInfo]:
     return out
 
 
+def attr_copies(fi: FuncInfo) -> dict[str, tuple[str, ast.stmt]]:
+    """locals of the function that are bound exactly once, to ``self.<attr>``: name -> (attr, the assignment)"""
+    cached = getattr(fi, "_c01_attr_copies", None)
+    if cached is not None:
+        return cached
+    stores: dict[str, int] = {}
+    cands: dict[str, tuple[str, ast.stmt]] = {}
+    for n in walk_no_nested(fi.node):
+        if isinstance(n, ast.Name) and isinstance(n.ctx, (ast.Store, ast.Del)):
+            stores[n.id] = stores.get(n.id, 0) + 1
+        if isinstance(n, (ast.Assign, ast.AnnAssign)) and n.value is not None:
+            tgs = n.targets if isinstance(n, ast.Assign) else [n.target]
+            v = _uncast(n.value)
+            if len(tgs) == 1 and isinstance(tgs[0], ast.Name) and is_self_attr(v):
+                cands[tgs[0].id] = (v.attr, n)  # type: ignore[union-attr]
+    out = {k: v for k, v in cands.items() if stores.get(k) == 1 and k not in fi.params}
+    fi._c01_attr_copies = out  # type: ignore[attr-defined]
+    return out
+
+
+def attr_of(e: ast.AST, fi: FuncInfo) -> str | None:
+    """``self.<attr>`` or a local copy of it -> attr"""
+    if is_self_attr(e):
+        return e.attr  # type: ignore[attr-defined]
+    if isinstance(e, ast.Name) and isinstance(e.ctx, ast.Load):
+        c = attr_copies(fi).get(e.id)
+        return c[0] if c is not None else None
+    return None
+
+
 def windowed_searches(fi: FuncInfo) -> list[tuple[ast.Call, str, str]]:
-    """``RX.search(self.B, self.P)`` -> (call, B, P)"""
+    """``RX.search(self.B, self.P)`` -> (call, B, P); B and P may be read through local copies (`buffer = self.B`)"""
     out = []
     for c in walk_no_nested(fi.node):
         if isinstance(c, ast.Call) and isinstance(c.func, ast.Attribute) and c.func.attr == "search" and not c.keywords and len(c.args) >= 2:
-            b, p = c.args[0], c.args[1]
-            if is_self_attr(b) and is_self_attr(p):
-                out.append((c, b.attr, p.attr))  # type: ignore[attr-defined]
+            b, p = attr_of(c.args[0], fi), attr_of(c.args[1], fi)
+            if b is not None and p is not None:
+                out.append((c, b, p))
     return out
+
+
+def enum_members(e: ast.AST, enum: str, members: t.Sequence[str]) -> list[str] | None:
+    """``Enum.A`` -> [A];  ``(Enum.A, Enum.B)`` / ``{...}`` / ``[...]`` -> [A, B];  anything else -> None"""
+    def one(x: ast.AST) -> str | None:
+        if isinstance(x, ast.Attribute) and isinstance(x.value, ast.Name) and x.value.id == enum and x.attr in members:
+            return x.attr
+        return None
+
+    m = one(e)
+    if m is not None:
+        return [m]
+    if isinstance(e, ast.Call) and isinstance(e.func, ast.Name) and e.func.id in ("frozenset", "set", "tuple", "list") and len(e.args) == 1 and not e.keywords:
+        e = e.args[0]
+    if isinstance(e, (ast.Tuple, ast.List, ast.Set)) and e.elts:
+        ms = [one(x) for x in e.elts]
+        return ms if all(ms) else None  # type: ignore[return-value]
+    return None
+
+
+def state_copy_def(rd: ReachingDefs, e: ast.AST, node: Node, state_attr: str):
+    """a local that holds a copy of ``self.<state>``: its single binding (else None)"""
+    if not isinstance(e, ast.Name):
+        return None
+    defs = rd.reaching(node, e.id)
+    if len(defs) != 1:
+        return None
+    d = next(iter(defs))
+    v = d.value
+    while isinstance(v, ast.Call) and (dotted(v.func) or "").endswith("cast") and len(v.args) == 2:
+        v = v.args[1]
+    if d.kind in ("assign", "walrus") and d.index is None and d.node is not None and v is not None and is_self_attr(v, state_attr):
+        return d
+    return None
+
+
+def state_test_parts(fi: FuncInfo, rd: ReachingDefs, test: ast.AST, node: Node, roles: "Roles") -> tuple[bool, set[str], Node | None] | None:
+    """a condition atom that compares the protocol state with members of its Enum -> (negated, members, snapshot):
+    the atom is true iff (state in members) != negated.  The state may be written ``self.<state>`` or be a local copy of it
+    (snapshot = the node that took the copy; the caller decides whether the copy is still current); either side of
+    ``==`` / ``is`` / ``!=`` / ``is not``; ``in`` / ``not in`` a literal collection of members."""
+    if not (isinstance(test, ast.Compare) and len(test.ops) == 1):
+        return None
+    op, lhs, rhs = test.ops[0], test.left, test.comparators[0]
+
+    def state_side(x: ast.AST) -> tuple[bool, Node | None]:
+        if isinstance(x, ast.NamedExpr):
+            x = x.value
+        if is_self_attr(x, roles.state):
+            return True, None
+        d = state_copy_def(rd, x, node, roles.state)
+        return (True, d.node) if d is not None else (False, None)
+
+    if isinstance(op, (ast.Eq, ast.Is, ast.NotEq, ast.IsNot)):
+        for a, b in ((lhs, rhs), (rhs, lhs)):
+            ms = enum_members(b, roles.enum, roles.members)
+            ok, snap = state_side(a)
+            if ok and ms is not None and len(ms) == 1 and not isinstance(b, (ast.Tuple, ast.List, ast.Set)):
+                return isinstance(op, (ast.NotEq, ast.IsNot)), set(ms), snap
+    elif isinstance(op, (ast.In, ast.NotIn)):
+        if isinstance(rhs, ast.Name) and not rd.reaching(node, rhs.id) and rhs.id not in fi.params:
+            vs = fi.module.assigns.get(rhs.id)  # `_DATA_STATES = (State.DATA_START, State.DATA)` at module level
+            if vs and len(vs) == 1:
+                rhs = vs[0]
+        elif isinstance(rhs, ast.Attribute) and isinstance(rhs.value, ast.Name) and rhs.value.id in ("self", "cls", roles.cls.name) and rhs.attr in roles.cls.attrs \
+                and not any(is_self_attr(x, rhs.attr) and isinstance(x.ctx, ast.Store) for f in roles.cls.methods.values() for x in walk_no_nested(f.node)):  # type: ignore[attr-defined]
+            rhs = roles.cls.attrs[rhs.attr]  # the same as a class-level constant
+        ms = enum_members(rhs, roles.enum, roles.members)
+        ok, snap = state_side(lhs)
+        if ok and ms is not None and (isinstance(rhs, (ast.Tuple, ast.List, ast.Set, ast.Call))):
+            return isinstance(op, ast.NotIn), set(ms), snap
+    return None
 
 
 class Typestate:
@@ -460,6 +627,11 @@ class Typestate:
         self._memo: dict[tuple, frozenset] = {}
         self._busy: set[str] = set()
         self._relevant: dict[str, bool] = {}
+        self._rds: dict[str, ReachingDefs] = {}
+        self._writes: dict[tuple[str, str], bool] = {}
+        self.buffer_rebound = any(
+            is_self_attr(n, roles.buffer) and isinstance(n.ctx, ast.Store) and not isinstance(getattr(n, "_parent", None), ast.AugAssign)  # type: ignore[attr-defined]
+            for name, f in roles.cls.methods.items() if name != "__init__" for n in walk_no_nested(f.node))
 
     # -- which methods matter ---------------------------------------------
     def relevant(self, fi: FuncInfo) -> bool:
@@ -473,6 +645,8 @@ class Typestate:
                     r = True
                 if n.attr == self.r.buffer:
                     r = r or self._buffer_effect_node(n) is not None
+            if isinstance(n, ast.Name) and self.is_buf(n, fi):
+                r = r or self._buffer_effect_node(n) is not None
             if isinstance(n, ast.Call) and isinstance(n.func, ast.Attribute) and isinstance(n.func.value, ast.Name) and n.func.value.id == "self":
                 _, what = self.repo.lookup(self.r.cls, n.func.attr)
                 if isinstance(what, FuncInfo) and what.name != fi.name and self.relevant(what):
@@ -485,6 +659,8 @@ class Typestate:
     def _buffer_effect_node(self, attr_node: ast.AST) -> str | None:
         """effect of the construct around a ``self.<buffer>`` mention: 'shift' or None."""
         p = getattr(attr_node, "_parent", None)
+        if isinstance(attr_node, ast.Name) and not isinstance(attr_node.ctx, ast.Load):
+            return None  # binding of a local copy of the reference
         if isinstance(attr_node, ast.Attribute) and isinstance(attr_node.ctx, ast.Store):
             gp = p
             if isinstance(gp, ast.AugAssign):
@@ -507,24 +683,159 @@ class Typestate:
             return e.attr
         return None
 
-    def _filter(self, test: ast.AST, facts: frozenset) -> tuple[frozenset, frozenset]:
+    def rd_of(self, fi: FuncInfo) -> ReachingDefs:
+        rd = self._rds.get(fi.qualname)
+        if rd is None:
+            rd = self._rds[fi.qualname] = ReachingDefs(cfg_of(fi), fi.params)
+        return rd
+
+    def writes_attr(self, fi: FuncInfo, attr: str) -> bool:
+        """does the method (or a method of the class it calls on self) assign ``self.<attr>``?"""
+        key = (fi.qualname, attr)
+        if key in self._writes:
+            return self._writes[key]
+        self._writes[key] = False  # recursion guard
+        w = False
+        for n in walk_no_nested(fi.node):
+            if is_self_attr(n, attr) and isinstance(n.ctx, (ast.Store, ast.Del)):  # type: ignore[attr-defined]
+                w = True
+            if isinstance(n, ast.Call) and isinstance(n.func, ast.Attribute) and isinstance(n.func.value, ast.Name) and n.func.value.id == "self":
+                _, what = self.repo.lookup(self.r.cls, n.func.attr)
+                if isinstance(what, FuncInfo) and what.name != fi.name and self.writes_attr(what, attr):
+                    w = True
+        self._writes[key] = w
+        return w
+
+    def is_buf(self, e: ast.AST, fi: FuncInfo) -> bool:
+        """``self.<buffer>`` or a local copy of the reference (the buffer object is mutated in place, never replaced)"""
+        if is_self_attr(e, self.r.buffer):
+            return True
+        if isinstance(e, ast.Name) and not self.buffer_rebound:
+            c = attr_copies(fi).get(e.id)
+            return c is not None and c[0] == self.r.buffer
+        return False
+
+    def is_off(self, e: ast.AST, fi: FuncInfo, at: Node) -> bool:
+        """``self.<offset>`` or a local copy of its value that is still current"""
+        if is_self_attr(e, self.r.offset):
+            return True
+        if isinstance(e, ast.Name) and isinstance(e.ctx, ast.Load):
+            c = attr_copies(fi).get(e.id)
+            if c is not None and c[0] == self.r.offset:
+                src = cfg_of(fi).node_of(c[1])
+                if src is None or self._attr_changes_between(fi, self.r.offset, src, at):
+                    raise AnalysisError(f"{fi.loc(e)}: `{e.id}` is a copy of the search offset taken before a statement that may assign the offset: not modelled")
+                return True
+        return False
+
+    def _state_changes_between(self, fi: FuncInfo, a: Node, b: Node) -> bool:
+        return self._attr_changes_between(fi, self.r.state, a, b)
+
+    def _attr_changes_between(self, fi: FuncInfo, attr: str, a: Node, b: Node) -> bool:
+        """can a statement that assigns ``self.<attr>`` run on a path a -> b?"""
+        cfg = cfg_of(fi)
+        after_a = cfg.reach([s for s, _ in a.succs])
+        for x in cfg.nodes:
+            if x.id not in after_a or x is b or x.ast is None or x.kind not in ("stmt", "test", "loop", "with"):
+                continue
+            roots = [x.ast.iter] if x.kind == "loop" else [i.context_expr for i in x.ast.items] if x.kind == "with" else [x.ast]  # type: ignore[attr-defined]
+            hit = False
+            for root in roots:
+                if isinstance(root, (ast.FunctionDef, ast.AsyncFunctionDef, ast.ClassDef)):
+                    continue
+                for n in [root, *walk_no_nested(root)]:
+                    if is_self_attr(n, attr) and isinstance(n.ctx, (ast.Store, ast.Del)):  # type: ignore[attr-defined]
+                        hit = True
+                    if isinstance(n, ast.Call) and isinstance(n.func, ast.Attribute) and isinstance(n.func.value, ast.Name) and n.func.value.id == "self":
+                        _, what = self.repo.lookup(self.r.cls, n.func.attr)
+                        if isinstance(what, FuncInfo) and self.writes_attr(what, attr):
+                            hit = True
+            if hit and b.id in cfg.reach([s for s, _ in x.succs]):
+                return True
+        return False
+
+    def _filter(self, fi: FuncInfo, tn: Node, facts: frozenset) -> tuple[frozenset, frozenset]:
         """(facts on the true edge, facts on the false edge)"""
-        if isinstance(test, ast.Compare) and len(test.ops) == 1 and is_self_attr(test.left, self.r.state):
-            op, rhs = test.ops[0], test.comparators[0]
-            want: set[str] | None = None
-            if isinstance(op, (ast.Eq, ast.Is, ast.NotEq, ast.IsNot)):
-                m = self._member(rhs)
-                want = {m} if m else None
-            elif isinstance(op, (ast.In, ast.NotIn)) and isinstance(rhs, (ast.Set, ast.Tuple, ast.List)):
-                ms = [self._member(x) for x in rhs.elts]
-                want = set(ms) if all(ms) else None  # type: ignore[arg-type]
-            if want is not None:
-                yes = frozenset(f for f in facts if f[0] is None or f[0] in want)
-                no = frozenset(f for f in facts if f[0] is None or f[0] not in want)
-                if isinstance(op, (ast.NotEq, ast.IsNot, ast.NotIn)):
-                    yes, no = no, yes
-                return yes, no
-        return facts, facts
+        parts = state_test_parts(fi, self.rd_of(fi), tn.ast, tn, self.r)  # type: ignore[arg-type]
+        if parts is None:
+            return facts, facts
+        negated, want, snapshot = parts
+        if snapshot is not None and self._state_changes_between(fi, snapshot, tn):
+            raise AnalysisError(f"{fi.loc(tn.ast)}: `{norm(tn.ast)}` tests a copy of the protocol state taken before a statement that may change the state: not modelled")
+        yes = frozenset(f for f in facts if f[0] is None or f[0] in want)
+        no = frozenset(f for f in facts if f[0] is None or f[0] not in want)
+        return (no, yes) if negated else (yes, no)
+
+    # -- the members an expression assigned to the state can denote ---------------------------
+    def _callee(self, fi: FuncInfo, call: ast.Call) -> FuncInfo | None:
+        f = call.func
+        if isinstance(f, ast.Attribute) and isinstance(f.value, ast.Name) and f.value.id in ("self", "cls", self.r.cls.name):
+            _, what = self.repo.lookup(self.r.cls, f.attr)
+            return what if isinstance(what, FuncInfo) else None
+        d = dotted(f)
+        if d and "." not in d and d not in fi.params and not any(x.name == d for ds in self.rd_of(fi).gen.values() for x in ds):
+            fq = self.repo.resolve(fi.module, d)
+            return self.repo.try_func(fq) if fq and fq.startswith("werkzeug") else None
+        return None
+
+    def state_values(self, fi: FuncInfo, e: ast.AST, node: Node, stack: tuple, depth: int = 0) -> set[str] | None:
+        """protocol-state members an expression can evaluate to: a member, a conditional expression / a selection from a literal
+        table of members, a local (every binding that reaches), a parameter (the argument of the call being followed), the
+        result of a helper of the class or module (every return).  None = something else."""
+        if depth > 8:
+            return None
+        while isinstance(e, ast.Call) and (dotted(e.func) or "").endswith("cast") and len(e.args) == 2:
+            e = e.args[1]
+        m = self._member(e)
+        if m is not None:
+            return {m}
+
+        def union(parts: t.Iterable[set[str] | None]) -> set[str] | None:
+            out: set[str] = set()
+            for p in parts:
+                if p is None:
+                    return None
+                out |= p
+            return out or None
+
+        if isinstance(e, ast.IfExp):
+            return union(self.state_values(fi, x, node, stack, depth + 1) for x in (e.body, e.orelse))
+        if isinstance(e, ast.NamedExpr):
+            return self.state_values(fi, e.value, node, stack, depth + 1)
+        if isinstance(e, ast.Subscript):
+            table = e.value
+            if isinstance(table, (ast.Tuple, ast.List)) and table.elts:
+                return union(self.state_values(fi, x, node, stack, depth + 1) for x in table.elts)
+            if isinstance(table, ast.Dict) and table.values and all(k is not None for k in table.keys):
+                return union(self.state_values(fi, x, node, stack, depth + 1) for x in table.values)
+            return None
+        if isinstance(e, ast.Name):
+            defs = self.rd_of(fi).reaching(node, e.id)
+            if not defs:
+                return None
+            parts = []
+            for d in defs:
+                if d.kind == "param" and stack:
+                    caller, call, cnode = stack[-1]
+                    binding = bind_args(fi, call)
+                    if binding is None or e.id not in binding:
+                        return None
+                    parts.append(self.state_values(caller, binding[e.id], cnode, stack[:-1], depth + 1))
+                elif d.kind in ("assign", "walrus") and d.index is None and d.value is not None and d.node is not None:
+                    parts.append(self.state_values(fi, d.value, d.node, stack, depth + 1))
+                else:
+                    return None
+            return union(parts)
+        if isinstance(e, ast.Call):
+            callee = self._callee(fi, e)
+            if callee is None or any(isinstance(x, (ast.Yield, ast.YieldFrom)) for x in walk_no_nested(callee.node)):
+                return None
+            cfg = cfg_of(callee)
+            if any(not (p.kind == "stmt" and isinstance(p.ast, ast.Return) and p.ast.value is not None) for p, _ in cfg.exit.preds):
+                return None  # can fall off the end / bare return: None is not a member
+            rets = [p for p, _ in cfg.exit.preds]
+            return union(self.state_values(callee, r.ast.value, r, stack + ((fi, e, node),), depth + 1) for r in rets)  # type: ignore[union-attr]
+        return None
 
     def _stale(self, facts: frozenset, key: str, new_state: str | None = None, change_state: bool = False) -> frozenset:
         out = set()
@@ -555,10 +866,10 @@ class Typestate:
                     raise AnalysisError(f"{fi.loc(a)}: tuple assignment to the protocol state / search offset is not modelled")
                 continue
             if is_self_attr(tg, self.r.state):
-                arms = [value.body, value.orelse] if isinstance(value, ast.IfExp) else [value]
-                ms = [self._member(x) if x is not None else None for x in arms]
-                if not all(ms):
+                vals = self.state_values(fi, value, n, tuple(self._stack)) if value is not None else None
+                if not vals:
                     raise AnalysisError(f"{fi.loc(a)}: `{norm(a)}` assigns something other than a {self.r.enum} member")
+                ms = sorted(vals)
                 k = self.key(fi, a)
                 self.stmts[k] = (fi, a, "state:=" + "|".join(ms))  # type: ignore[arg-type]
                 self.stmt_arrivals.setdefault(k, set()).update(facts)
@@ -580,7 +891,7 @@ class Typestate:
                     facts = frozenset((st, ("W", k, st, rx)) for st, _ in facts)
         # buffer effects (anywhere in the statement)
         for x in walk_no_nested(a) if not isinstance(a, (ast.FunctionDef, ast.ClassDef)) else []:
-            if is_self_attr(x, self.r.buffer) and self._buffer_effect_node(x) == "shift":
+            if self.is_buf(x, fi) and self._buffer_effect_node(x) == "shift":
                 k = self.key(fi, a)
                 self.stmts[k] = (fi, a, "shift")
                 self.stmt_arrivals.setdefault(k, set()).update(facts)
@@ -609,7 +920,7 @@ class Typestate:
                         facts = self.flow(what, facts)
                     finally:
                         self._stack.pop()
-            if isinstance(f, ast.Attribute) and f.attr == "search" and len(c.args) >= 2 and is_self_attr(c.args[0], self.r.buffer) and is_self_attr(c.args[1], self.r.offset):
+            if isinstance(f, ast.Attribute) and f.attr == "search" and len(c.args) >= 2 and self.is_buf(c.args[0], fi) and self.is_off(c.args[1], fi, n):
                 self.sites[id(c)] = SearchSite(fi, c, f.value)
                 self.site_arrivals.setdefault(id(c), set()).update(facts)
         return facts
@@ -635,7 +946,7 @@ class Typestate:
                 facts = self._calls_effect(fi, n, facts)
                 facts = self._own_effect(fi, n, facts)
                 if n.kind == "test":
-                    yes, no = self._filter(n.ast, facts)  # type: ignore[arg-type]
+                    yes, no = self._filter(fi, n, facts)
                 for s, l in n.succs:
                     if l == "raise":
                         continue
@@ -722,10 +1033,20 @@ class AnchorEval:
             raise _Unmodelled("expected one parameter")
         self.p = params[0]
         self.bytes: list[int] = []
-        for c in walk_no_nested(fi.node):
-            if isinstance(c, ast.Call) and isinstance(c.func, ast.Attribute) and c.func.attr in ("rindex", "rfind") and norm(c.func.value) == self.p:
-                b = self._byte(c)
-                if b not in self.bytes:
+
+        def one_byte(x: ast.AST) -> int | None:
+            return x.value[0] if isinstance(x, ast.Constant) and isinstance(x.value, bytes) and len(x.value) == 1 else None
+
+        # the bytes looked up: written at the lookup, or the elements of a literal collection a loop / comprehension runs over
+        for c in ast.walk(fi.node):
+            cands: list[ast.AST] = []
+            if isinstance(c, ast.Call) and isinstance(c.func, ast.Attribute) and c.func.attr in ("rindex", "rfind") and norm(c.func.value) == self.p and c.args:
+                cands = [c.args[0]]
+            elif isinstance(c, (ast.For, ast.comprehension)) and isinstance(c.iter, (ast.Tuple, ast.List, ast.Set)):
+                cands = list(c.iter.elts)
+            for x in cands:
+                b = one_byte(x)
+                if b is not None and b not in self.bytes:
                     self.bytes.append(b)
         if not self.bytes or len(self.bytes) > 3:
             raise _Unmodelled("no (or too many) last-index-of-byte lookups on the parameter")
@@ -733,9 +1054,13 @@ class AnchorEval:
             if isinstance(n, ast.Name) and n.id == self.p and isinstance(n.ctx, (ast.Store, ast.Del)):
                 raise _Unmodelled("the parameter is rebound")
 
-    def _byte(self, c: ast.Call) -> int:
-        if len(c.args) == 1 and not c.keywords and isinstance(c.args[0], ast.Constant) and isinstance(c.args[0].value, bytes) and len(c.args[0].value) == 1:
-            return c.args[0].value[0]
+    def _byte(self, c: ast.Call, env: dict[str, t.Any] | None = None) -> int:
+        if len(c.args) == 1 and not c.keywords:
+            a = c.args[0]
+            if isinstance(a, ast.Constant) and isinstance(a.value, bytes) and len(a.value) == 1:
+                return a.value[0]
+            if isinstance(a, ast.Name) and env is not None and isinstance(env.get(a.id), tuple) and env[a.id][0] == "byte":
+                return env[a.id][1]
         raise _Unmodelled(f"`{norm(c)}` is not a whole-argument lookup of one byte")
 
     # -- order ---------------------------------------------------------------------
@@ -770,9 +1095,28 @@ class AnchorEval:
         return next(iter(s))
 
     # -- expressions -----------------------------------------------------------
+    def _seq(self, e: ast.AST, env: dict[str, t.Any], order: tuple[int, ...]) -> list:
+        v = self.ev(e, env, order)
+        if not (isinstance(v, tuple) and v[0] == "seq"):
+            raise _Unmodelled(f"`{norm(e)}` is not a literal collection")
+        return list(v[1])
+
     def ev(self, e: ast.AST, env: dict[str, t.Any], order: tuple[int, ...]):
         if isinstance(e, ast.Constant) and isinstance(e.value, int) and not isinstance(e.value, bool):
             return ("int", e.value)
+        if isinstance(e, ast.Constant) and isinstance(e.value, bytes) and len(e.value) == 1:
+            return ("byte", e.value[0])
+        if isinstance(e, (ast.Tuple, ast.List)):
+            return ("seq", tuple(self.ev(x, env, order) for x in e.elts))
+        if isinstance(e, (ast.ListComp, ast.GeneratorExp)) and len(e.generators) == 1 and isinstance(e.generators[0].target, ast.Name) and not e.generators[0].is_async:
+            g = e.generators[0]
+            out = []
+            for item in self._seq(g.iter, env, order):
+                env2 = dict(env)
+                env2[g.target.id] = item  # type: ignore[union-attr]
+                if all(self.truth(c, env2, order) for c in g.ifs):
+                    out.append(self.ev(e.elt, env2, order))
+            return ("seq", tuple(out))
         if isinstance(e, ast.UnaryOp) and isinstance(e.op, ast.USub) and isinstance(e.operand, ast.Constant) and isinstance(e.operand.value, int):
             return ("int", -e.operand.value)
         if isinstance(e, ast.Name):
@@ -788,7 +1132,7 @@ class AnchorEval:
         if isinstance(e, ast.Call):
             f = e.func
             if isinstance(f, ast.Attribute) and f.attr in ("rindex", "rfind") and norm(f.value) == self.p:
-                b = self._byte(e)
+                b = self._byte(e, env)
                 if b in order:
                     return ("last", b)
                 if f.attr == "rindex":
@@ -798,14 +1142,13 @@ class AnchorEval:
                 return A_LEN
             if isinstance(f, ast.Name) and f.id in ("min", "max") and not e.keywords and e.args and not any(isinstance(a, ast.Starred) for a in e.args):
                 if len(e.args) == 1:
-                    if not isinstance(e.args[0], (ast.Tuple, ast.List)) or not e.args[0].elts:
-                        raise _Unmodelled(f"`{norm(e)}`")
-                    args = list(e.args[0].elts)
+                    vals = self._seq(e.args[0], env, order)  # a literal, a comprehension over one, or a list built up in a loop
+                    if not vals:
+                        raise _Unmodelled(f"`{norm(e)}` of nothing")
                 else:
-                    args = list(e.args)
-                best = self.ev(args[0], env, order)
-                for a in args[1:]:
-                    v = self.ev(a, env, order)
+                    vals = [self.ev(a, env, order) for a in e.args]
+                best = vals[0]
+                for v in vals[1:]:
                     c = self.compare(v, best, order)
                     if (c < 0 and f.id == "min") or (c > 0 and f.id == "max"):
                         best = v
@@ -824,6 +1167,11 @@ class AnchorEval:
             return res
         if isinstance(e, ast.UnaryOp) and isinstance(e.op, ast.Not):
             return not self.truth(e.operand, env, order)
+        if isinstance(e, ast.Compare) and len(e.ops) == 1 and isinstance(e.ops[0], (ast.In, ast.NotIn)) and norm(e.comparators[0]) == self.p:
+            a = self.ev(e.left, env, order)  # `b"\n" in data`
+            if not (isinstance(a, tuple) and a[0] == "byte"):
+                raise _Unmodelled(f"test `{norm(e)}`")
+            return (a[1] in order) == isinstance(e.ops[0], ast.In)
         if isinstance(e, ast.Compare) and len(e.ops) == 1:
             a, b = self.ev(e.left, env, order), self.ev(e.comparators[0], env, order)
             sg = self.signs(a, b, order)
@@ -878,7 +1226,32 @@ class AnchorEval:
                             env[x.id] = v  # type: ignore[attr-defined]
                     else:
                         raise _Unmodelled(f"`{norm(a)}`")
-                elif n.kind == "stmt" and isinstance(a, ast.Pass):
+                elif n.kind == "loop" and isinstance(a, ast.For) and isinstance(a.target, ast.Name) and not a.orelse:
+                    # a loop over a literal collection is unrolled
+                    key = f"#loop{n.id}"
+                    if key not in env:
+                        env[key] = self._seq(a.iter, env, order)
+                    if env[key]:
+                        env[a.target.id] = env[key].pop(0)
+                        lab = "T"
+                    else:
+                        del env[key]
+                        lab = "F"
+                    s = self.cfg.succ(n, lab)
+                    if len(s) != 1:
+                        raise _Unmodelled("loop without a successor")
+                    nxt = s[0]
+                elif n.kind == "stmt" and isinstance(a, ast.Expr) and isinstance(a.value, ast.Call) and isinstance(a.value.func, ast.Attribute) \
+                        and a.value.func.attr == "append" and isinstance(a.value.func.value, ast.Name) and len(a.value.args) == 1 and not a.value.keywords:
+                    name = a.value.func.value.id
+                    cur = env.get(name)
+                    if not (isinstance(cur, tuple) and cur[0] == "seq"):
+                        raise _Unmodelled(f"`{norm(a)}`")
+                    item = self.ev(a.value.args[0], env, order)  # may raise: then nothing is appended
+                    env[name] = ("seq", cur[1] + (item,))
+                elif n.kind == "stmt" and isinstance(a, (ast.Pass, ast.Continue, ast.Break)):
+                    pass
+                elif n.kind == "join":
                     pass
                 elif n.kind == "stmt" and isinstance(a, ast.Expr) and isinstance(a.value, ast.Constant):
                     pass  # docstring
@@ -900,6 +1273,14 @@ class AnchorEval:
 
 
 def anchor_summary(fi: FuncInfo) -> tuple[str, list[tuple[str, int]]] | None:
+    cached = getattr(fi, "_c01_anchor_summary", "?")
+    if cached == "?":
+        cached = _anchor_summary(fi)
+        fi._c01_anchor_summary = cached  # type: ignore[attr-defined]
+    return cached
+
+
+def _anchor_summary(fi: FuncInfo) -> tuple[str, list[tuple[str, int]]] | None:
     """what a hold-back anchor function computes: ("min"|"max"|"one", [(absent-value, byte), ...]) or None when not modelled.
 
     Each term is the last index of one byte in the (only) parameter with a fallback for an argument without that
@@ -928,3 +1309,823 @@ def anchor_summary(fi: FuncInfo) -> tuple[str, list[tuple[str, int]]] | None:
             if all(ae.rank(predicted(o), o) == ae.rank(v, o) for o, v in results.items()):
                 found.append((comb, [("end" if fb == A_LEN else "-1", b) for b, fb in zip(ae.bytes, fbs)]))
     return found[0] if len(found) == 1 else None
+
+
+# ---------------------------------------------------------------------------
+# feeding and draining the decoder: which class can the last value returned by
+# next_event() have when the next chunk is fed / when the function returns?
+#
+# Abstract interpretation of the function that owns the decoder (and of the package
+# helpers it hands the decoder to) over facts
+#     (locals holding the last event, its class, murky, boolean locals computed from it)
+# Every test is evaluated on its *meaning* for the class of the event: isinstance with a
+# class / tuple / union, `type(e) is C`, `e is CONSTANT`, flags computed earlier
+# (`done = isinstance(...)`), predicates extracted into a helper, and/or/not, walrus.
+# The loop shape does not matter (while-cond, while True + break, prime-and-refetch,
+# generator helper, bound-method alias).
+
+EV_START = "<nothing fed yet>"
+EV_NOFETCH = "<fed, next_event not called since>"
+_BOTH = frozenset({True, False})
+
+
+class EvFact(t.NamedTuple):
+    names: frozenset  # locals that hold the value next_event() returned last
+    cls: str  # its class (a name of the universe), EV_START or EV_NOFETCH
+    murky: bool  # something on the path that may depend on the event's class was not understood
+    env: frozenset  # (local, bool): boolean locals whose value on this path is known
+    ret: bool = False  # exit facts: the function returns the event itself
+
+
+class FlowResult:
+    def __init__(self) -> None:
+        self.exit: set[EvFact] = set()
+        self.yields: set[tuple[EvFact, bool]] = set()  # (fact, the yielded value is the event)
+        self.ret_truth: set[bool] = set()
+        self.ret_murky = False
+
+
+def _uncast(v: ast.AST | None) -> ast.AST | None:
+    while isinstance(v, ast.Call) and (dotted(v.func) or "").endswith("cast") and len(v.args) == 2:
+        v = v.args[1]
+    return v
+
+
+class EventFlow:
+    def __init__(self, repo, dec_cls: ClassInfo, fetch: str = "next_event", feed: str = "receive_data"):
+        self.repo, self.dec_cls, self.fetch, self.feed = repo, dec_cls, fetch, feed
+        fi = dec_cls.methods.get(fetch)
+        if fi is None:
+            raise AnalysisError(f"{dec_cls.name}.{fetch} not found")
+        base = None
+        ann = getattr(fi.node, "returns", None)
+        if ann is not None and dotted(ann):
+            fq = repo.resolve(fi.module, dotted(ann))
+            base = repo.try_cls(fq) if fq else None
+        if base is None:
+            raise AnalysisError(f"{fi.loc()}: the return annotation of {fetch} does not name a class of the package: the set of event classes is not known")
+        self.base = base
+        self.universe: dict[str, set[str]] = {}  # class name -> names of the classes in its MRO
+        for c in base.module.classes.values():
+            names = {k.name for k in repo.mro(c)}
+            if base.name in names:
+                self.universe[c.name] = names
+        self.module = base.module
+        self.feed_arrivals: dict[tuple[str, int], tuple[FuncInfo, ast.Call, set[EvFact]]] = {}
+        self.fetch_sites: dict[int, tuple[FuncInfo, ast.Call]] = {}
+        self._memo: dict[tuple, FlowResult] = {}
+        self._busy: set[tuple] = set()
+        self._rds: dict[str, ReachingDefs] = {}
+        self._bodies: dict[tuple[str, int], set[int]] = {}
+        self._nested: dict[tuple[str, str], FuncInfo] = {}
+
+    # -- small lookups ----------------------------------------------------------------
+    def rd_of(self, fi: FuncInfo) -> ReachingDefs:
+        rd = self._rds.get(fi.fq)
+        if rd is None:
+            rd = self._rds[fi.fq] = ReachingDefs(cfg_of(fi), fi.params)
+        return rd
+
+    def locals_of(self, fi: FuncInfo) -> set[str]:
+        out = set(fi.params)
+        for ds in self.rd_of(fi).gen.values():
+            out |= {d.name for d in ds}
+        return out
+
+    def callee(self, fi: FuncInfo, call: ast.Call) -> FuncInfo | None:
+        """the package function a call runs: ``self.m(...)`` / ``cls.m(...)`` / ``Class.m(...)`` of the function's class, or a module-level function"""
+        f = call.func
+        if isinstance(f, ast.Attribute) and isinstance(f.value, ast.Name) and fi.cls is not None and f.value.id in ("self", "cls", fi.cls.name):
+            _, what = self.repo.lookup(fi.cls, f.attr)
+            return what if isinstance(what, FuncInfo) else None
+        d = dotted(f)
+        if d and d.split(".")[0] not in self.locals_of(fi):
+            fq = self.repo.resolve(fi.module, d)
+            return self.repo.try_func(fq) if fq and fq.startswith("werkzeug") else None
+        if isinstance(f, ast.Name):  # a function defined inside this one (it sees the same decoder through its closure)
+            defs = [x for ds in self.rd_of(fi).gen.values() for x in ds if x.name == f.id]
+            if len(defs) == 1 and defs[0].kind == "def" and f.id not in fi.params:
+                key = (fi.fq, f.id)
+                if key not in self._nested:
+                    self._nested[key] = FuncInfo(fi.module, defs[0].stmt, f"{fi.qualname}.<locals>.{f.id}", fi.cls)  # type: ignore[arg-type]
+                return self._nested[key]
+        return None
+
+    def is_dec(self, e: ast.AST | None, dec: str | None) -> bool:
+        return dec is not None and e is not None and isinstance(e, (ast.Name, ast.Attribute)) and norm(e) == dec
+
+    def dec_method(self, fi: FuncInfo, call: ast.Call, node: Node, dec: str | None) -> str | None:
+        """``dec.m(...)`` or ``m(...)`` with ``m = dec.m`` -> "m" """
+        f = call.func
+        if isinstance(f, ast.Attribute) and self.is_dec(f.value, dec):
+            return f.attr
+        if isinstance(f, ast.Name):
+            defs = self.rd_of(fi).reaching(node, f.id)
+            if len(defs) == 1:
+                d = next(iter(defs))
+                v = _uncast(d.value)
+                if d.kind == "assign" and d.index is None and isinstance(v, ast.Attribute) and self.is_dec(v.value, dec):
+                    return v.attr
+        return None
+
+    def check_dec_stable(self, fi: FuncInfo, dec: str | None) -> None:
+        if dec is None or "." in dec:
+            return
+        defs = [d for ds in self.rd_of(fi).gen.values() for d in ds if d.name == dec]
+        if len(defs) + (1 if dec in fi.params else 0) > 1 or (not defs and dec not in fi.params and "<locals>" not in fi.qualname):
+            raise AnalysisError(f"{fi.loc()}: `{dec}` (the decoder) is bound more than once in {fi.qualname}: not modelled")
+
+    def classes_of(self, fi: FuncInfo, e: ast.AST, _depth: int = 0, module=None) -> list[str] | None:
+        """class / tuple of classes / union of classes / module constant naming such a tuple -> names
+        (None when one of them is not an event class).  ``module``: read the expression as written at the top of that module."""
+        mod = module or fi.module
+        if isinstance(e, (ast.Tuple, ast.List, ast.Set)):
+            parts = [self.classes_of(fi, x, _depth, module) for x in e.elts]
+        elif isinstance(e, ast.BinOp) and isinstance(e.op, ast.BitOr):
+            parts = [self.classes_of(fi, e.left, _depth, module), self.classes_of(fi, e.right, _depth, module)]
+        else:
+            d = dotted(e)
+            if not d or (module is None and d.split(".")[0] in self.locals_of(fi)):
+                return None
+            fq = self.repo.resolve(mod, d)
+            c = self.repo.try_cls(fq) if fq else None
+            if c is None and fq and fq.startswith("werkzeug") and _depth < 3:
+                # a module-level constant that names the classes: `_TERMINAL = (Epilogue, NeedData)`
+                mn, _, name = fq.rpartition(".")
+                m = self.repo.modules.get(mn)
+                vs = m.assigns.get(name) if m is not None else None
+                if vs and len(vs) == 1:
+                    return self.classes_of(fi, vs[0], _depth + 1, m)
+            return [c.name] if c is not None and c.module is self.module and c.name in self.universe else None
+        out: list[str] = []
+        for p in parts:
+            if p is None:
+                return None
+            out += p
+        return out
+
+    def const_class(self, fi: FuncInfo, e: ast.AST) -> str | None:
+        """a module-level constant bound to ``C()`` with C an event class (``NEED_DATA``) -> C"""
+        d = dotted(e)
+        if not d or d.split(".")[0] in self.locals_of(fi):
+            return None
+        fq = self.repo.resolve(fi.module, d)
+        if not fq or not fq.startswith("werkzeug"):
+            return None
+        mn, _, name = fq.rpartition(".")
+        m = self.repo.modules.get(mn)
+        vs = m.assigns.get(name) if m is not None else None
+        v = vs[0] if vs and len(vs) == 1 else None
+        if isinstance(v, ast.Call) and not v.args and not v.keywords:
+            dd = dotted(v.func)
+            fq2 = self.repo.resolve(m, dd) if dd else None
+            c = self.repo.try_cls(fq2) if fq2 else None
+            if c is not None and c.name in self.universe:
+                return c.name
+        return None
+
+    @staticmethod
+    def subject(e: ast.AST | None) -> str | None:
+        e = _uncast(e)
+        if isinstance(e, ast.NamedExpr):
+            return e.target.id
+        return e.id if isinstance(e, ast.Name) else None
+
+    # -- truth of a condition for one fact ----------------------------------------------------------
+    def truth(self, fi: FuncInfo, e: ast.AST, f: EvFact, depth: int = 0) -> tuple[frozenset, bool]:
+        """(possible truth values, murky).  Conditions that do not talk about the event are (both, False)."""
+        if isinstance(e, ast.BoolOp):
+            is_and = isinstance(e.op, ast.And)
+            acc, murky = frozenset({is_and}), False
+            for v in e.values:
+                vals, m = self.truth(fi, v, f, depth)
+                acc = frozenset((a and b) if is_and else (a or b) for a in acc for b in vals)
+                murky = murky or m
+            return acc, murky and len(acc) > 1
+        if isinstance(e, ast.UnaryOp) and isinstance(e.op, ast.Not):
+            vals, m = self.truth(fi, e.operand, f, depth)
+            return frozenset(not v for v in vals), m
+        if isinstance(e, ast.Constant):
+            return frozenset({bool(e.value)}), False
+        if isinstance(e, ast.NamedExpr):
+            return self.truth(fi, e.value, f, depth)
+        if isinstance(e, ast.IfExp):
+            tv, tm = self.truth(fi, e.test, f, depth)
+            vals: set[bool] = set()
+            murky = tm
+            for b in tv:
+                v2, m2 = self.truth(fi, e.body if b else e.orelse, f, depth)
+                vals |= v2
+                murky = murky or m2
+            return frozenset(vals), murky and len(vals) > 1
+        if isinstance(e, ast.Name):
+            for k, v in f.env:
+                if k == e.id:
+                    return frozenset({v}), False
+            return _BOTH, False
+        names = f.names
+        if isinstance(e, ast.Call):
+            fn = e.func
+            if isinstance(fn, ast.Name) and fn.id == "isinstance" and len(e.args) == 2 and not e.keywords and "isinstance" not in self.locals_of(fi):
+                if self.subject(e.args[0]) in names:
+                    cs = self.classes_of(fi, e.args[1])
+                    if cs is None or f.cls not in self.universe:
+                        return _BOTH, True
+                    return frozenset({any(c in self.universe[f.cls] for c in cs)}), False
+                return _BOTH, False
+            about = [i for i, a in enumerate(e.args) if self.subject(a) in names] + [k.arg for k in e.keywords if self.subject(k.value) in names]
+            if about:
+                callee = self.callee(fi, e)
+                binding = bind_args(callee, e) if callee is not None else None
+                if callee is None or binding is None or depth > 3:
+                    return _BOTH, True
+                params = frozenset(p for p, a in binding.items() if self.subject(a) in names)
+                res = self.flow(callee, None, frozenset({EvFact(params, f.cls, False, frozenset())}), depth + 1)
+                if not res.ret_truth:
+                    return _BOTH, True
+                return frozenset(res.ret_truth), res.ret_murky and len(res.ret_truth) > 1
+            return _BOTH, False
+        if isinstance(e, ast.Compare) and len(e.ops) == 1:
+            op, lhs, rhs = e.ops[0], _uncast(e.left), _uncast(e.comparators[0])
+            neg = isinstance(op, (ast.IsNot, ast.NotEq, ast.NotIn))
+
+            def type_of_subject(x: ast.AST | None) -> bool:
+                if isinstance(x, ast.Call) and isinstance(x.func, ast.Name) and x.func.id == "type" and len(x.args) == 1 and self.subject(x.args[0]) in names:
+                    return True
+                return isinstance(x, ast.Attribute) and x.attr == "__class__" and self.subject(x.value) in names
+
+            if isinstance(op, (ast.Is, ast.IsNot, ast.Eq, ast.NotEq)):
+                for a, b in ((lhs, rhs), (rhs, lhs)):
+                    if type_of_subject(a):
+                        cs = self.classes_of(fi, b) if not isinstance(b, (ast.Tuple, ast.List, ast.Set)) else None
+                        if cs is None or f.cls not in self.universe:
+                            return _BOTH, True
+                        return frozenset({(f.cls in cs) != neg}), False
+                    if self.subject(a) in names:
+                        c = self.const_class(fi, b)
+                        if c is None or f.cls not in self.universe:
+                            return _BOTH, True
+                        # the constant is an instance of c: an event of another class is not it; one of that class may be
+                        return (_BOTH, False) if c in self.universe[f.cls] else (frozenset({neg}), False)
+            if isinstance(op, (ast.In, ast.NotIn)) and isinstance(rhs, (ast.Tuple, ast.List, ast.Set)):
+                if type_of_subject(lhs):
+                    cs = self.classes_of(fi, rhs)
+                    if cs is None or f.cls not in self.universe:
+                        return _BOTH, True
+                    return frozenset({(f.cls in cs) != neg}), False
+                if self.subject(lhs) in names:
+                    cs2 = [self.const_class(fi, x) for x in rhs.elts]
+                    if not all(cs2) or f.cls not in self.universe:
+                        return _BOTH, True
+                    return (_BOTH, False) if any(c in self.universe[f.cls] for c in cs2) else (frozenset({neg}), False)  # type: ignore[operator]
+            if self.subject(lhs) in names or self.subject(rhs) in names or type_of_subject(lhs) or type_of_subject(rhs):
+                return _BOTH, True
+        if isinstance(e, ast.Attribute) and self.subject(e.value) in names:
+            kind, const = self.attr_kind(f.cls, e.attr)
+            if kind == "const":
+                return frozenset({bool(const)}), False
+            return _BOTH, kind != "field"
+        # anything else: attributes of the event that are instance data do not depend on its class; other uses are not understood
+        for x in ast.walk(e):
+            if isinstance(x, ast.Attribute) and self.subject(x.value) in names and self.attr_kind(f.cls, x.attr)[0] != "field":
+                return _BOTH, True
+        return _BOTH, False
+
+    def attr_kind(self, cls: str, attr: str) -> tuple[str, t.Any]:
+        """what `event.<attr>` is for an event of class cls: ("field", None) instance data declared by an annotation,
+        ("const", value) a class-level constant, ("other", None) a property / method / unknown"""
+        c = self.module.classes.get(cls)
+        if c is None:
+            return "other", None
+        for k in self.repo.mro(c):
+            if not isinstance(k, ClassInfo):
+                continue
+            for st in k.node.body:
+                if isinstance(st, ast.AnnAssign) and isinstance(st.target, ast.Name) and st.target.id == attr:
+                    return "field", None
+                if isinstance(st, ast.Assign) and any(isinstance(tg, ast.Name) and tg.id == attr for tg in st.targets):
+                    return ("const", st.value.value) if isinstance(st.value, ast.Constant) else ("other", None)
+                if isinstance(st, (ast.FunctionDef, ast.AsyncFunctionDef)) and st.name == attr:
+                    return "other", None
+        return "other", None
+
+    # -- one node -----------------------------------------------------------------------------
+    def _roots(self, n: Node) -> list[ast.AST]:
+        a = n.ast
+        if a is None or n.kind not in ("stmt", "test", "loop", "with") or isinstance(a, (ast.FunctionDef, ast.AsyncFunctionDef, ast.ClassDef)):
+            return []
+        if n.kind == "loop":
+            return [a.iter]  # type: ignore[attr-defined]
+        if n.kind == "with":
+            return [it.context_expr for it in a.items]  # type: ignore[attr-defined]
+        return [a]
+
+    def _loop_body_ids(self, fi: FuncInfo, loop: ast.AST) -> set[int]:
+        key = (fi.fq, id(loop))
+        if key not in self._bodies:
+            cfg = cfg_of(fi)
+            ids: set[int] = set()
+            for st in loop.body:  # type: ignore[attr-defined]
+                for x in ast.walk(st):
+                    for nn in cfg.by_ast.get(id(x), []):
+                        ids.add(nn.id)
+            self._bodies[key] = ids
+        return self._bodies[key]
+
+    def generator_call(self, fi: FuncInfo, n: Node, dec: str | None) -> tuple[FuncInfo, str | None, ast.Call] | None:
+        """the loop node iterates over a package generator that is handed the decoder"""
+        if n.kind != "loop":
+            return None
+        it = _uncast(n.ast.iter)  # type: ignore[union-attr]
+        if isinstance(it, ast.Name):
+            defs = self.rd_of(fi).reaching(n, it.id)
+            if len(defs) == 1 and next(iter(defs)).kind == "assign" and next(iter(defs)).index is None:
+                it = _uncast(next(iter(defs)).value)
+        if not isinstance(it, ast.Call):
+            return None
+        callee = self.callee(fi, it)
+        if callee is None or not any(isinstance(x, (ast.Yield, ast.YieldFrom)) for x in walk_no_nested(callee.node)):
+            return None
+        p = self.dec_param(fi, callee, it, dec)
+        if p is None:
+            return None
+        return callee, p, it
+
+    def sentinel_fetch(self, fi: FuncInfo, n: Node, dec: str | None) -> str | None:
+        """loop over ``iter(dec.next_event, CONSTANT)`` -> class of the constant"""
+        it = _uncast(n.ast.iter) if n.kind == "loop" else None  # type: ignore[union-attr]
+        if isinstance(it, ast.Call) and isinstance(it.func, ast.Name) and it.func.id == "iter" and len(it.args) == 2 and not it.keywords and "iter" not in self.locals_of(fi):
+            m, stop = it.args
+            if isinstance(m, ast.Attribute) and m.attr == self.fetch and self.is_dec(m.value, dec):
+                return self.const_class(fi, stop)
+        return None
+
+    def dec_param(self, fi: FuncInfo, callee: FuncInfo, call: ast.Call, dec: str | None) -> str | None:
+        """name under which the callee knows the decoder (None: it is not handed the decoder)"""
+        if dec is None:
+            return None
+        binding = bind_args(callee, call)
+        if binding is not None:
+            ps = [p for p, a in binding.items() if self.is_dec(a, dec)]
+            if len(ps) == 1:
+                return ps[0]
+        if "<locals>" in callee.qualname and callee.qualname.startswith(fi.qualname + ".") and dec not in callee.params:
+            if any(isinstance(x, (ast.Name, ast.Attribute)) and norm(x) == dec for x in walk_no_nested(callee.node)):
+                return dec  # closure over the same variable
+        if dec.startswith("self.") and callee.cls is not None and fi.cls is not None and isinstance(call.func, ast.Attribute) and isinstance(call.func.value, ast.Name) and call.func.value.id == "self":
+            if any(isinstance(x, ast.Attribute) and norm(x) == dec for x in walk_no_nested(callee.node)):
+                return dec
+        return None
+
+    def transfer(self, fi: FuncInfo, n: Node, facts: frozenset, dec: str | None, res: FlowResult, depth: int) -> frozenset:
+        roots = self._roots(n)
+        if not roots:
+            return facts
+        rd = self.rd_of(fi)
+        calls = [c for root in roots for c in [root, *walk_no_nested(root)] if isinstance(c, ast.Call)]
+        calls.sort(key=lambda c: (getattr(c, "end_lineno", 0), getattr(c, "end_col_offset", 0)))
+        produced: set[int] = set()  # calls whose value is the event
+        handled: set[int] = set()  # mentions of the decoder that are understood
+        gen = self.generator_call(fi, n, dec)
+        if self.sentinel_fetch(fi, n, dec) is not None:
+            handled.add(id(n.ast.iter.args[0]))  # type: ignore[union-attr]
+            self.fetch_sites[id(n.ast.iter)] = (fi, n.ast.iter)  # type: ignore[union-attr]
+        for c in calls:
+            m = self.dec_method(fi, c, n, dec)
+            if m is not None and isinstance(c.func, ast.Attribute):
+                handled.add(id(c.func.value))
+            if m == self.fetch:
+                self.fetch_sites[id(c)] = (fi, c)
+                envs = {f.env for f in facts}
+                facts = frozenset(EvFact(frozenset(), k, False, env) for k in self.universe for env in envs)
+                produced.add(id(c))
+                continue
+            if m == self.feed:
+                key = (fi.fq, id(c))
+                self.feed_arrivals.setdefault(key, (fi, c, set()))[2].update(facts)
+                facts = frozenset(EvFact(frozenset(), EV_NOFETCH, False, f.env) for f in facts)
+                continue
+            if m is not None:
+                continue  # another method of the decoder: no effect on what next_event returned last
+            if gen is not None and c is gen[2]:
+                for a in [*c.args, *[k.value for k in c.keywords]]:
+                    if self.is_dec(a, dec):
+                        handled.add(id(a))
+                continue  # handled on the loop edges
+            callee = self.callee(fi, c)
+            if callee is None:
+                continue
+            p = self.dec_param(fi, callee, c, dec)
+            if p is None:
+                continue
+            for a in [*c.args, *[k.value for k in c.keywords]]:
+                if self.is_dec(a, dec):
+                    handled.add(id(a))
+            if any(isinstance(x, (ast.Yield, ast.YieldFrom)) for x in walk_no_nested(callee.node)):
+                facts = frozenset(f._replace(murky=True) for f in facts)  # a generator driven by hand: not modelled
+                continue
+            sub = self.flow(callee, p, frozenset(f._replace(names=frozenset(), env=frozenset()) for f in facts), depth + 1)
+            facts = frozenset(f._replace(names=frozenset(), env=frozenset()) for f in sub.exit)
+            if any(f.ret for f in facts):
+                produced.add(id(c))
+        # the decoder used in a way that is not understood (stored, passed to code outside the package, ...)
+        if dec is not None:
+            for root in roots:
+                for x in [root, *walk_no_nested(root)]:
+                    if self.is_dec(x, dec) and isinstance(getattr(x, "ctx", None), ast.Load) and id(x) not in handled:
+                        par = getattr(x, "_parent", None)
+                        if isinstance(par, ast.Attribute) and par.value is x:
+                            gp = getattr(par, "_parent", None)
+                            if par.attr in (self.fetch, self.feed) and not (isinstance(gp, ast.Call) and gp.func is par) and id(par) not in handled \
+                                    and not (isinstance(gp, (ast.Assign, ast.AnnAssign)) and gp.value is par):
+                                facts = frozenset(f._replace(murky=True) for f in facts)  # the bound method escapes (iter(), map(), partial())
+                            continue  # attribute read / method call on the decoder
+                        facts = frozenset(f._replace(murky=True) for f in facts)
+        # bindings
+        fetched_here = bool(produced)
+        bound = False
+        for d in rd.gen[n.id]:
+            v = _uncast(d.value)
+            if d.kind in ("assign", "walrus") and d.index is None and v is not None and id(v) in produced:
+                facts = frozenset(
+                    f._replace(names=(f.names | {d.name}) if (f.ret or id(v) in self.fetch_sites) else f.names - {d.name}, ret=False,
+                               env=frozenset(kv for kv in f.env if kv[0] != d.name)) for f in facts)
+                bound = True
+                continue
+            out = set()
+            for f in facts:
+                if d.kind == "assign" and d.index is None and isinstance(v, ast.Name) and v.id in f.names:
+                    out.add(f._replace(names=f.names | {d.name}))  # a copy of the event
+                    continue
+                f = f._replace(names=f.names - {d.name}, env=frozenset(kv for kv in f.env if kv[0] != d.name))
+                about = v is not None and d.kind in ("assign", "walrus") and d.index is None and (
+                    (isinstance(v, ast.Constant) and isinstance(v.value, bool))
+                    or any(isinstance(x, ast.Name) and (x.id in f.names or any(k == x.id for k, _ in f.env)) for x in [v, *ast.walk(v)]))
+                if about:
+                    vals, mk = self.truth(fi, v, f, depth)  # type: ignore[arg-type]
+                    if len(vals) == 1:  # an undetermined flag takes both edges of its tests anyway
+                        f = f._replace(env=f.env | {(d.name, next(iter(vals)))})
+                    elif mk:
+                        f = f._replace(murky=True)
+                out.add(f)
+            facts = frozenset(out)
+        facts = frozenset(f._replace(ret=False) for f in facts)
+        a = n.ast
+        if produced and isinstance(a, ast.Assign) and id(_uncast(a.value)) in produced and any(not isinstance(tg, ast.Name) for tg in a.targets):
+            facts = frozenset(f._replace(murky=True) for f in facts)  # the event is also stored where tests on it are not followed
+        if isinstance(a, ast.Return) or (isinstance(a, ast.Expr) and isinstance(a.value, (ast.Yield, ast.YieldFrom))):
+            val = _uncast(a.value if isinstance(a, ast.Return) else a.value.value)  # type: ignore[union-attr]
+            direct = val is not None and id(val) in produced
+            if isinstance(a, ast.Return):
+                out2 = set()
+                for f in facts:
+                    is_ev = direct or (val is not None and self.subject(val) in f.names)
+                    if val is not None:
+                        vals, mk = self.truth(fi, val, f, depth)
+                        res.ret_truth |= set(vals)
+                        res.ret_murky = res.ret_murky or mk
+                    else:
+                        res.ret_truth.add(False)
+                    out2.add(f._replace(ret=is_ev))
+                facts = frozenset(out2)
+                bound = bound or direct
+            elif isinstance(a.value, ast.Yield):  # type: ignore[union-attr]
+                for f in facts:
+                    res.yields.add((f, direct or (val is not None and self.subject(val) in f.names)))
+                bound = bound or direct
+            else:
+                facts = frozenset(f._replace(murky=True) for f in facts)
+        elif any(isinstance(x, (ast.Yield, ast.YieldFrom)) for root in roots for x in [root, *walk_no_nested(root)]):
+            facts = frozenset(f._replace(murky=True) for f in facts)  # a yield inside a larger expression: not modelled
+        if fetched_here and not bound:
+            # the value is not bound to a local (used in place, stored elsewhere): tests on it cannot be followed afterwards
+            facts = frozenset(f._replace(murky=True) if not f.names else f for f in facts)
+        return facts
+
+    # -- one function -----------------------------------------------------------------------------
+    def flow(self, fi: FuncInfo, dec: str | None, entry: frozenset, depth: int = 0) -> FlowResult:
+        mk = (fi.fq, dec, entry)
+        if mk in self._memo:
+            return self._memo[mk]
+        if depth > 4 or (fi.fq, dec) in self._busy:
+            raise AnalysisError(f"{fi.loc()}: helper chain around the decoder is recursive or too deep: not modelled")
+        self._busy.add((fi.fq, dec))
+        try:
+            self.check_dec_stable(fi, dec)
+            cfg = cfg_of(fi)
+            res = FlowResult()
+            inn: dict[int, frozenset] = {n.id: frozenset() for n in cfg.nodes}
+            inn[cfg.entry.id] = entry
+            work = [cfg.entry]
+            steps = 0
+            while work:
+                steps += 1
+                if steps > 20000:
+                    raise AnalysisError(f"{fi.loc()}: event-class flow did not converge")
+                n = work.pop()
+                before = inn[n.id]
+                facts = self.transfer(fi, n, before, dec, res, depth)
+                edge: dict[str | None, frozenset] = {}
+                gen = self.generator_call(fi, n, dec)
+                if gen is not None:
+                    callee, p, call = gen
+                    sub = self.flow(callee, p, frozenset(f._replace(names=frozenset(), env=frozenset()) for f in facts), depth + 1)
+                    tgt = n.ast.target  # type: ignore[union-attr]
+                    tname = frozenset({tgt.id}) if isinstance(tgt, ast.Name) else frozenset()
+                    touched = any(self.is_dec(x, dec) for st in n.ast.body for x in ast.walk(st))  # type: ignore[union-attr]
+                    edge["T"] = frozenset(f._replace(names=tname if is_ev else frozenset(), env=frozenset(), murky=f.murky or touched or not is_ev or not tname, ret=False) for f, is_ev in sub.yields)
+                    edge["F"] = frozenset(f._replace(names=frozenset(), env=frozenset(), murky=f.murky or touched, ret=False) for f in sub.exit)
+                elif n.kind == "loop" and self.sentinel_fetch(fi, n, dec) is not None:
+                    # `for e in iter(dec.next_event, CONSTANT)`: one call per iteration, the loop ends when the constant comes back
+                    stop_cls = self.sentinel_fetch(fi, n, dec)
+                    tgt = n.ast.target  # type: ignore[union-attr]
+                    tname = frozenset({tgt.id}) if isinstance(tgt, ast.Name) else frozenset()
+                    envs = {f.env for f in facts} or {frozenset()}
+                    edge["T"] = frozenset(EvFact(tname, k, not tname, env) for k in self.universe for env in envs) if facts else frozenset()
+                    edge["F"] = frozenset(EvFact(frozenset(), stop_cls, False, env) for env in envs) if facts else frozenset()
+                elif n.kind == "test":
+                    yes, no = set(), set()
+                    for f in facts:
+                        vals, mky = self.truth(fi, n.ast, f, depth)  # type: ignore[arg-type]
+                        g = f._replace(murky=f.murky or mky)
+                        # a flag tested by name is known on each edge afterwards
+                        if True in vals:
+                            yes.add(g)
+                        if False in vals:
+                            no.add(g)
+                    edge["T"], edge["F"] = frozenset(yes), frozenset(no)
+                for s, l in n.succs:
+                    if l == "raise":
+                        continue
+                    if l in edge:
+                        f = edge[l]
+                    elif l == "exc":
+                        f = before | facts
+                    else:
+                        f = facts
+                    if s.kind == "loop" and self.generator_call(fi, s, dec) is not None and n.id in self._loop_body_ids(fi, s.ast):  # type: ignore[arg-type]
+                        continue  # the body of a loop over a generator ended: the generator resumes (followed inside the generator)
+                    if not f <= inn[s.id]:
+                        inn[s.id] = inn[s.id] | f
+                        work.append(s)
+            res.exit = set(inn[cfg.exit.id])
+            if any(not (p.kind == "stmt" and isinstance(p.ast, ast.Return)) for p, _ in cfg.exit.preds):
+                res.ret_truth.add(False)  # falls off the end: returns None
+        finally:
+            self._busy.discard((fi.fq, dec))
+        self._memo[mk] = res
+        return res
+
+
+# ---------------------------------------------------------------------------
+# the chunk reader: what has happened to the result of the last read when the next read is
+# made / when the generator ends?
+#
+# facts: (locals holding the last read result, status, boolean locals computed from it) with status
+#   "none"     nothing read yet
+#   "empty"    the last read returned no bytes
+#   "pending"  the last read returned bytes that have not been yielded (unmodified) yet
+#   "yielded"  the last read returned bytes and they were yielded unmodified
+# A read is a call through a parameter of the generator (the read function itself, a method of the
+# stream, a local alias of either), also as the callable of `iter(callable, b"")`.
+
+RD_NONE, RD_EMPTY, RD_PENDING, RD_YIELDED = "none", "empty", "pending", "yielded"
+
+
+class RdFact(t.NamedTuple):
+    names: frozenset
+    status: str
+    env: frozenset
+
+
+class ReadFlow:
+    def __init__(self, fi: FuncInfo):
+        self.fi = fi
+        self.cfg = cfg_of(fi)
+        self.rd = ReachingDefs(self.cfg, fi.params)
+        self.locals = set(fi.params)
+        for ds in self.rd.gen.values():
+            self.locals |= {d.name for d in ds}
+        self.reads: dict[int, ast.AST] = {}  # read sites
+        self.data_yields: dict[int, ast.AST] = {}  # yields of the unmodified read result
+        self.other_yields: dict[int, ast.AST] = {}  # yields of something else that is not None
+        self.end_yields: dict[int, ast.AST] = {}  # yield None
+        self.dropped: dict[int, tuple[ast.AST, str]] = {}  # where a pending (non-empty, not yielded) read result is lost
+        self.exit_status: set[str] = set()
+        self.tests: dict[int, str] = {}  # emptiness tests understood
+        self.other_tests: dict[int, str] = {}
+        self._run()
+
+    # -- reads ----------------------------------------------------------------------------------
+    def _through_param(self, f: ast.AST, node: Node, depth: int = 0) -> bool:
+        """is the callable a parameter, a method of a parameter, or a local alias of one?"""
+        if isinstance(f, ast.Attribute):
+            return isinstance(f.value, ast.Name) and self._is_param(f.value.id, node)
+        if isinstance(f, ast.Name):
+            if self._is_param(f.id, node):
+                return True
+            defs = self.rd.reaching(node, f.id)
+            if len(defs) == 1 and depth < 3:
+                d = next(iter(defs))
+                if d.kind == "assign" and d.index is None and d.value is not None and d.node is not None and isinstance(d.value, (ast.Name, ast.Attribute)):
+                    return self._through_param(d.value, d.node, depth + 1)
+        return False
+
+    def _is_param(self, name: str, node: Node) -> bool:
+        defs = self.rd.reaching(node, name)
+        return name in self.fi.params and bool(defs) and all(d.kind == "param" for d in defs)
+
+    def is_read(self, c: ast.AST, node: Node) -> bool:
+        return isinstance(c, ast.Call) and self._through_param(c.func, node)
+
+    def sentinel_reads(self, e: ast.AST | None, node: Node) -> bool:
+        """``iter(<callable that performs one read>, b"")``"""
+        if not (isinstance(e, ast.Call) and isinstance(e.func, ast.Name) and e.func.id == "iter" and "iter" not in self.locals and len(e.args) == 2 and not e.keywords):
+            return False
+        fn, stop = e.args
+        if not (isinstance(stop, ast.Constant) and stop.value == b""):
+            return False
+        if isinstance(fn, ast.Lambda) and not fn.args.args and not fn.args.vararg and not fn.args.kwarg:
+            return self.is_read(fn.body, node)
+        if isinstance(fn, ast.Call) and (dotted(fn.func) or "").rsplit(".", 1)[-1] == "partial" and fn.args:
+            return self._through_param(fn.args[0], node)
+        return False
+
+    # -- conditions -------------------------------------------------------------------------------
+    @staticmethod
+    def _subject(e: ast.AST | None) -> str | None:
+        e = _uncast(e)
+        while isinstance(e, ast.Call) and isinstance(e.func, ast.Name) and e.func.id in ("bytes", "bytearray", "memoryview") and len(e.args) == 1:
+            e = e.args[0]
+        if isinstance(e, ast.NamedExpr):
+            return e.target.id
+        return e.id if isinstance(e, ast.Name) else None
+
+    def truth(self, e: ast.AST, f: RdFact) -> tuple[frozenset, bool]:
+        """(possible truth values, the condition is an emptiness test of the read result)"""
+        if isinstance(e, ast.BoolOp):
+            is_and = isinstance(e.op, ast.And)
+            acc, und = frozenset({is_and}), False
+            for v in e.values:
+                vals, u = self.truth(v, f)
+                acc = frozenset((a and b) if is_and else (a or b) for a in acc for b in vals)
+                und = und or u
+            return acc, und
+        if isinstance(e, ast.UnaryOp) and isinstance(e.op, ast.Not):
+            vals, u = self.truth(e.operand, f)
+            return frozenset(not v for v in vals), u
+        if isinstance(e, ast.Constant):
+            return frozenset({bool(e.value)}), False
+        if isinstance(e, ast.Name) and e.id not in f.names:
+            for k, v in f.env:
+                if k == e.id:
+                    return frozenset({v}), True
+            return _BOTH, False
+        if f.status in (RD_NONE,):
+            return _BOTH, False
+        empty = f.status == RD_EMPTY
+        if self._subject(e) in f.names:  # truthiness of the bytes read
+            return frozenset({not empty}), True
+        if isinstance(e, ast.Compare) and len(e.ops) == 1:
+            lhs, op, rhs = _uncast(e.left), type(e.ops[0]), _uncast(e.comparators[0])
+            flip = {ast.Gt: ast.Lt, ast.Lt: ast.Gt, ast.GtE: ast.LtE, ast.LtE: ast.GtE}
+            if isinstance(lhs, ast.Constant):
+                lhs, rhs, op = rhs, lhs, flip.get(op, op)
+            c = rhs.value if isinstance(rhs, ast.Constant) else None
+            if isinstance(lhs, ast.Call) and isinstance(lhs.func, ast.Name) and lhs.func.id == "len" and len(lhs.args) == 1 and self._subject(lhs.args[0]) in f.names \
+                    and isinstance(c, int) and not isinstance(c, bool):
+                lo, hi = (0, 0) if empty else (1, None)  # range of len(result)
+                table = {
+                    ast.Eq: lambda x: x == c, ast.NotEq: lambda x: x != c, ast.Lt: lambda x: x < c,
+                    ast.LtE: lambda x: x <= c, ast.Gt: lambda x: x > c, ast.GtE: lambda x: x >= c,
+                }
+                if op in table:
+                    samples = [0] if empty else [1, max(c, 1), max(c, 1) + 1, max(c, 1) + 2]
+                    vals = frozenset(bool(table[op](x)) for x in samples)
+                    return vals, True
+            if self._subject(lhs) in f.names and isinstance(c, (bytes, bytearray)) and len(c) == 0 and op in (ast.Eq, ast.NotEq):
+                return frozenset({empty == (op is ast.Eq)}), True
+        return _BOTH, False
+
+    # -- the run ----------------------------------------------------------------------------------
+    def _mentions(self, e: ast.AST, f: RdFact) -> bool:
+        return any(isinstance(x, ast.Name) and (x.id in f.names or any(k == x.id for k, _ in f.env)) for x in ast.walk(e))
+
+    def _roots(self, n: Node) -> list[ast.AST]:
+        a = n.ast
+        if a is None or n.kind not in ("stmt", "test", "loop", "with") or isinstance(a, (ast.FunctionDef, ast.AsyncFunctionDef, ast.ClassDef)):
+            return []
+        if n.kind == "loop":
+            return [a.iter]  # type: ignore[attr-defined]
+        if n.kind == "with":
+            return [it.context_expr for it in a.items]  # type: ignore[attr-defined]
+        return [a]
+
+    def _lose(self, facts: frozenset, where: ast.AST, why: str) -> None:
+        if any(f.status == RD_PENDING for f in facts):
+            self.dropped.setdefault(id(where), (where, why))
+
+    def transfer(self, n: Node, facts: frozenset) -> frozenset:
+        roots = self._roots(n)
+        if not roots:
+            return facts
+        sentinel_loop = n.kind == "loop" and self.sentinel_reads(n.ast.iter, n)  # type: ignore[union-attr]
+        inner = [x for root in roots for x in [root, *walk_no_nested(root)]]
+        calls = [c for c in inner if isinstance(c, ast.Call)]
+        calls.sort(key=lambda c: (getattr(c, "end_lineno", 0), getattr(c, "end_col_offset", 0)))
+        produced: set[int] = set()
+        for c in calls:
+            if not sentinel_loop and self.is_read(c, n):
+                self.reads[id(c)] = c
+                self._lose(facts, c, "read again before the bytes of the previous read were yielded")
+                envs = {f.env for f in facts} or {frozenset()}
+                facts = frozenset(RdFact(frozenset(), st, env) for st in (RD_EMPTY, RD_PENDING) for env in envs)
+                produced.add(id(c))
+        # bindings
+        for d in self.rd.gen[n.id]:
+            v = _uncast(d.value)
+            if d.kind in ("assign", "walrus") and d.index is None and v is not None and id(v) in produced:
+                facts = frozenset(f._replace(names=f.names | {d.name}, env=frozenset(kv for kv in f.env if kv[0] != d.name)) for f in facts)
+                continue
+            out = set()
+            for f in facts:
+                if d.kind == "assign" and d.index is None and self._subject(v) in f.names and self._subject(v) is not None and not isinstance(v, ast.NamedExpr):
+                    out.add(f._replace(names=f.names | {d.name}))
+                    continue
+                f = f._replace(names=f.names - {d.name}, env=frozenset(kv for kv in f.env if kv[0] != d.name))
+                if v is not None and d.kind in ("assign", "walrus") and d.index is None and ((isinstance(v, ast.Constant) and isinstance(v.value, bool)) or self._mentions(v, f)):
+                    vals, und = self.truth(v, f)
+                    if len(vals) == 1 and (und or isinstance(v, ast.Constant)):
+                        f = f._replace(env=f.env | {(d.name, next(iter(vals)))})
+                out.add(f)
+            facts = frozenset(out)
+        # yields
+        for y in inner:
+            if isinstance(y, ast.YieldFrom):
+                if self.sentinel_reads(_uncast(y.value), n):
+                    self.reads[id(y.value)] = y.value
+                    self._lose(facts, y, "read again before the bytes of the previous read were yielded")
+                    self.data_yields[id(y)] = y
+                    facts = frozenset(RdFact(frozenset(), RD_EMPTY, f.env) for f in facts)
+                else:
+                    self.other_yields[id(y)] = y
+            elif isinstance(y, ast.Yield):
+                val = y.value
+                if val is None or (isinstance(val, ast.Constant) and val.value is None):
+                    self.end_yields[id(y)] = y
+                    continue
+                direct = id(_uncast(val)) in produced
+                if direct or any(self._subject(val) in f.names for f in facts if self._subject(val) is not None):
+                    self.data_yields[id(y)] = y
+                    facts = frozenset(f._replace(status=RD_YIELDED) if f.status == RD_PENDING and (direct or self._subject(val) in f.names) else f for f in facts)
+                else:
+                    self.other_yields[id(y)] = y
+        return facts
+
+    def _run(self) -> None:
+        cfg = self.cfg
+        inn: dict[int, frozenset] = {n.id: frozenset() for n in cfg.nodes}
+        inn[cfg.entry.id] = frozenset({RdFact(frozenset(), RD_NONE, frozenset())})
+        work = [cfg.entry]
+        steps = 0
+        while work:
+            steps += 1
+            if steps > 20000:
+                raise AnalysisError(f"{self.fi.loc()}: read-status flow did not converge")
+            n = work.pop()
+            before = inn[n.id]
+            facts = self.transfer(n, before)
+            edge: dict[str | None, frozenset] = {}
+            if n.kind == "loop" and self.sentinel_reads(n.ast.iter, n):  # type: ignore[union-attr]
+                it = n.ast.iter  # type: ignore[union-attr]
+                self.reads[id(it)] = it
+                self._lose(facts, it, "read again before the bytes of the previous read were yielded")
+                tgt = n.ast.target  # type: ignore[union-attr]
+                tname = frozenset({tgt.id}) if isinstance(tgt, ast.Name) else frozenset()
+                envs = {f.env for f in facts}
+                edge["T"] = frozenset(RdFact(tname, RD_PENDING, env) for env in envs)
+                edge["F"] = frozenset(RdFact(frozenset(), RD_EMPTY, env) for env in envs)
+                self.tests[id(it)] = norm(it)
+            elif n.kind == "test":
+                yes, no = set(), set()
+                for f in facts:
+                    vals, und = self.truth(n.ast, f)  # type: ignore[arg-type]
+                    if und:
+                        self.tests[id(n.ast)] = norm(n.ast)  # type: ignore[arg-type]
+                    elif self._mentions(n.ast, f):  # type: ignore[arg-type]
+                        self.other_tests[id(n.ast)] = norm(n.ast)  # type: ignore[arg-type]
+                    if True in vals:
+                        yes.add(f)
+                    if False in vals:
+                        no.add(f)
+                edge["T"], edge["F"] = frozenset(yes), frozenset(no)
+            for s, l in n.succs:
+                if l == "raise":
+                    continue
+                f = edge[l] if l in edge else (before | facts) if l == "exc" else facts
+                if not f <= inn[s.id]:
+                    inn[s.id] = inn[s.id] | f
+                    work.append(s)
+        end = inn[cfg.exit.id]
+        self.exit_status = {f.status for f in end}
+        self._lose(end, self.fi.node, "the generator ends before the bytes of the last read were yielded")
